@@ -26,6 +26,7 @@ package livesql
 //@   loop 1 decreases len(update.deltas) - rangeindex
 
 // processBinlog: every registered resource is consulted, and invalidated exactly when it says so.
+//@ nonnil livesql.dbResource.resource       // registerDependency builds every dbResource with reactive.NewResource()
 //@ func dbTracker.processBinlog
 //@   requires t != nil && update != nil
 //@   requires forall q *dbResource :: (q in t.resources) ==> q != nil      // only registerDependency adds entries, always a fresh resource
